@@ -451,6 +451,12 @@ func (r *Runner) step(i int, op Op) {
 	}
 }
 
+// Step executes one op (for harnesses that interleave their own checks).
+func (r *Runner) Step(op Op) {
+	r.step(r.nops, op)
+	r.nops++
+}
+
 // MarkRestart tells the runner that the store was reopened by the harness
 // itself (outside a "restart" op).
 func (r *Runner) MarkRestart(phase string) {
